@@ -174,8 +174,8 @@ func runC17(r *Report, tier string) {
 				o3.check(cc.algField == "$0", "alg = $0", "alg field holds "+cc.algField)
 			}
 		}
-		r.floor("R17.1", nsucc, 7, "success paths of "+cn)
-		r.floor("R17.1", nfail, 5, "failure paths of "+cn)
+		r.floorSoft("R17.1", nsucc, 7, "success paths of "+cn)
+		r.floorSoft("R17.1", nfail, 5, "failure paths of "+cn)
 		// every supported algorithm has a success path
 		var missing []string
 		for a := range fams {
